@@ -69,7 +69,9 @@ where
         let arity = if spec.chunk() > 0 { 2 * spec.chunk() } else if matches!(spec, Spec::Count) { 2 } else { 1 };
         let want_proof_len = arity + spec.gadget_degree() * (pl - 1) + 1;
         let want_qr = 1 + if spec.outputs() > 1 { spec.outputs() } else { 0 };
-        if n != spec.input_len() || t.proof_len() != want_proof_len || t.verifier_len() != arity + 2 || t.prove_rand_len() != arity || t.query_rand_len() != want_qr || t.eval_output_len() != spec.outputs() {
+        let multi = spec.num_gadgets() > 1;
+        let gadget_pls: Vec<usize> = t.gadget().iter().map(|g| (1 + g.calls()).next_power_of_two()).collect();
+        if !multi && (n != spec.input_len() || t.proof_len() != want_proof_len || t.verifier_len() != arity + 2 || t.prove_rand_len() != arity || t.query_rand_len() != want_qr || t.eval_output_len() != spec.outputs()) {
             run.fail(&format!("small/{name}/declared_len"), &format!("{name}: declared lengths differ from the specification (input {} proof {} verifier {} prove_rand {} query_rand {})", n, t.proof_len(), t.verifier_len(), t.prove_rand_len(), t.query_rand_len()), json!({"spec": spec.name()}));
             return;
         }
@@ -128,7 +130,9 @@ where
                             let mut qr = qv.clone();
                             qr.push(r);
                             let qrf: Vec<F> = vf(&qr);
-                            let expect_refused = modpow(r, pl as u128, p) == 1;
+                            // refusal is specified per gadget point (the last num_gadgets entries)
+                            let ng = gadget_pls.len();
+                            let expect_refused = (0..ng).any(|g| modpow(qr[qr.len() - ng + g], gadget_pls[g] as u128, p) == 1);
                             let res = catch(|| t.query(&xf, &proof, &qrf, &jrf, 1));
                             evals.fetch_add(1, Ordering::Relaxed);
                             let case = || json!({"spec": spec.name(), "p": p.to_string(), "x": x, "jr": jr, "pr": pr, "qr": qr});
@@ -259,3 +263,109 @@ pub fn adversarial_count(run: &Run, full: bool) {
     run.sample(json!({"adversarial": "Count@GF(17)", "proofs": nproofs, "inputs": 17, "query_points": 15, "max_accepting_points_invalid": max_acc.load(Ordering::Relaxed)}));
 }
 
+
+/// Adversarial prover restricted to one gadget at a time: honest wire seeds, but EVERY assignment of
+/// the gadget-polynomial part of one gadget's sub-proof (small fields), for every gadget of the
+/// circuit. For an invalid input the forged polynomial either differs from G∘f — then it agrees
+/// with it on at most d(P-1) query points — or equals it — then the non-zero circuit output is
+/// exposed. So for at least one of two independent compression vectors at most d(P-1) of the
+/// admissible points of the forged gadget may accept.
+pub struct ForgedGadget<'a> {
+    pub run: &'a Run,
+    pub all_inputs: bool,
+}
+
+impl<'a, F: KitField> Visit<F> for ForgedGadget<'a>
+where
+    F::Integer: IntConv,
+{
+    type Out = ();
+    fn visit<T: Type<Field = F> + Send + Sync + 'static>(self, spec: &Spec, t: T) {
+        let run = self.run;
+        let p = F::p();
+        let pu = p as u64;
+        let name = format!("{}@GF({})", spec.name(), p);
+        let n = t.input_len();
+        let gadgets = t.gadget();
+        // layout of the proof: per gadget (offset of the gadget polynomial, its length, P, degree)
+        let mut layout = vec![];
+        let mut off = 0usize;
+        for g in &gadgets {
+            let pl = (1 + g.calls()).next_power_of_two();
+            let gl = g.degree() * (pl - 1) + 1;
+            layout.push((off + g.arity(), gl, pl, g.degree()));
+            off += g.arity() + gl;
+        }
+        assert_eq!(off, t.proof_len(), "{name}: proof layout");
+        let inputs: Vec<Vec<u128>> = if self.all_inputs {
+            (0..pow_u64(pu, n).unwrap()).map(|i| nth_vector(i, n, pu)).collect()
+        } else {
+            let a = [0u128, 1, 2, p - 1];
+            (0..pow_u64(4, n).unwrap()).map(|i| nth_vector(i, n, 4).iter().map(|j| a[*j as usize]).collect()).collect()
+        };
+        let ng = gadgets.len();
+        let nout = t.eval_output_len();
+        let qvecs: Vec<Vec<u128>> = if nout > 1 { vec![(0..nout).map(|i| (i as u128 * 2 + 1) % p).collect(), (0..nout).map(|i| ((i as u128 + 1) * (i as u128 + 1) + 1) % p).collect()] } else { vec![vec![]] };
+        let jr: Vec<F> = vf(&vec![3 % p; t.joint_rand_len()]);
+        let pr: Vec<F> = vf(&(0..t.prove_rand_len()).map(|i| (i as u128 * 5 + 2) % p).collect::<Vec<_>>());
+        let evals = AtomicU64::new(0);
+        let worst = AtomicU64::new(0);
+        let items: Vec<(usize, usize)> = (0..inputs.len()).flat_map(|i| (0..ng).map(move |g| (i, g))).collect();
+        par::for_each(items.len() as u64, |ix| {
+            let (ii, gi) = items[ix as usize];
+            let x = &inputs[ii];
+            if spec.is_valid(x, p) {
+                return;
+            }
+            let xf: Vec<F> = vf(x);
+            let honest = match t.prove(&xf, &pr, &jr) {
+                Ok(h) => h,
+                Err(_) => return,
+            };
+            let (goff, glen, _pl, deg) = layout[gi];
+            let total = pow_u64(pu, glen).filter(|v| *v <= 200_000);
+            let Some(total) = total else { return };
+            let bound = (deg * (layout[gi].2 - 1)) as u64;
+            // admissible points per gadget
+            let adm: Vec<Vec<u128>> = layout.iter().map(|(_, _, pl, _)| (0..p).filter(|r| modpow(*r, *pl as u128, p) != 1).collect()).collect();
+            for v in 0..total {
+                let seg = nth_vector(v, glen, pu);
+                let mut proof = honest.clone();
+                for (k, e) in seg.iter().enumerate() {
+                    proof[goff + k] = F::fe(*e);
+                }
+                let mut over = 0;
+                let mut detail = vec![];
+                for q in &qvecs {
+                    let mut accepted = 0u64;
+                    for r in &adm[gi] {
+                        let mut qr = q.clone();
+                        for (g2, a2) in adm.iter().enumerate() {
+                            qr.push(if g2 == gi { *r } else { a2[a2.len() / 2] });
+                        }
+                        let qrf: Vec<F> = vf(&qr);
+                        evals.fetch_add(1, Ordering::Relaxed);
+                        if let Ok(ver) = t.query(&xf, &proof, &qrf, &jr, 1) {
+                            if t.decide(&ver).unwrap_or(false) {
+                                accepted += 1;
+                            }
+                        }
+                    }
+                    worst.fetch_max(accepted, Ordering::Relaxed);
+                    detail.push(accepted);
+                    if accepted > bound {
+                        over += 1;
+                    }
+                }
+                if over == qvecs.len() {
+                    run.fail(&format!("forged/{name}/gadget{gi}"), &format!("{name}: INVALID input {:?} with gadget {gi}'s polynomial forged to {:?} (honest wire seeds) is accepted at {:?} of {} admissible points of that gadget for both compression vectors (bound d(P-1) = {bound})", x, seg, detail, adm[gi].len()), json!({"spec": spec.name(), "p": p.to_string(), "x": x, "gadget": gi, "forged_polynomial": seg}));
+                    return;
+                }
+            }
+            run.distinct(fnv(format!("forged/{name}/{:?}/{gi}", x).as_bytes()));
+        });
+        run.count("evaluations", evals.load(Ordering::Relaxed));
+        run.count("forged_gadget_polynomial_queries", evals.load(Ordering::Relaxed));
+        run.sample(json!({"forged_gadget": name, "gadgets": ng, "inputs": inputs.len(), "max_accepting_points_seen": worst.load(Ordering::Relaxed)}));
+    }
+}
